@@ -419,77 +419,103 @@ def opStep (h : Heap) (kind : Kind) (inputs : List Operand) (constant : Option B
 
 /-! ## `collect_all_tensors_and_clear_grads` -/
 
-/-- the recursive DFS, with fuel; `seen` is the id set, `topo` the deque (`appendleft` = cons).
-Note the code nulls the gradient *before* the constant test. -/
-def collect (fuel : Nat) (h : Heap) (t : Nat) (seen : List Nat) (topo : List Nat) :
-    Option (Heap × List Nat × List Nat) :=
+/-- the inputs the DFS descends into from `t`: none for a constant or creator-less tensor -/
+def Heap.inp (h : Heap) (t : Nat) : List Nat :=
+  let tt := h.t t
+  if tt.const then []
+  else match tt.creator with
+    | none => []
+    | some f => (h.op f).vars
+
+/-- The recursive DFS, with fuel.  `topo` is both the deque (`appendleft` = cons) and the `seen` set
+(the code adds a tensor to both at the same moment); `touched` lists every tensor the function was
+called on — each of those has its gradient nulled, *before* the constant / seen tests.
+`none` = fuel exhausted, which only a cyclic graph can cause (Python's RecursionError). -/
+def collect (fuel : Nat) (h : Heap) (t : Nat) (touched : List Nat) (topo : List Nat) :
+    Option (List Nat × List Nat) :=
   match fuel with
-  | 0 => none                         -- only a cyclic graph gets here: Python's RecursionError
+  | 0 => none
   | fuel + 1 =>
-    let h := h.modT t ({ · with grad := none, viewGrad := none })
-    let tt := h.t t
-    if tt.const then some (h, seen, topo)
-    else if seen.contains t then some (h, seen, topo)
+    let touched := t :: touched
+    if (h.t t).const then some (touched, topo)
+    else if topo.contains t then some (touched, topo)
     else
-      let r : Option (Heap × List Nat × List Nat) :=
-        match tt.creator with
-        | none => some (h, seen, topo)
-        | some f =>
-          (h.op f).vars.foldlM (fun (acc : Heap × List Nat × List Nat) v =>
-            collect fuel acc.1 v acc.2.1 acc.2.2) (h, seen, topo)
-      r.map fun (h, seen, topo) => (h, t :: seen, t :: topo)
+      let r : Option (List Nat × List Nat) :=
+        (h.inp t).foldlM (fun (acc : List Nat × List Nat) v => collect fuel h v acc.1 acc.2)
+          (touched, topo)
+      r.map fun (touched, topo) => (touched, t :: topo)
 
 /-! ## `Operation.backward` -/
 
-def addVal (a b : Val) : Val := (a.1, (List.zip a.2 b.2).map fun (x, y) => x + y)
+/-- gradients accumulated so far during one backward pass: tensor id ↦ `_grad` -/
+abbrev GMap := List (Nat × Val)
+
+/-- `a += b` on arrays of one shape (padding makes the definition total) -/
+def addVal (a b : Val) : Val :=
+  (a.1, (List.range (max a.2.length b.2.length)).map fun i => a.2.getD i 0 + b.2.getD i 0)
+
+/-- copy-or-accumulate: `var._grad = g` the first time, `var._grad += g` afterwards -/
+def accum (gr : GMap) (v : Nat) (bg : Val) : GMap :=
+  match lookup v gr with
+  | none => insert v bg gr
+  | some old => insert v (addVal old bg) gr
+
+/-- `backed_grad * self.where` -/
+def applyWhere (o : OpRec) (bg : Val) : Except Err Val :=
+  match o.whereMask with
+  | none => .ok bg
+  | some m =>
+    match broadcastShapes bg.1 m.1 with
+    | none => .error .valueError
+    | some sh =>
+      match broadcastVal bg sh, broadcastMask m sh with
+      | .ok b, .ok mk => .ok (sh, (List.zip b.2 mk).map fun (x, k) => if k then x else 0)
+      | _, _ => .error .valueError
+
+/-- `grad_post_process_fn` (= `reduce_broadcast`) followed by
+`assert backed_grad.shape == var.shape` (and it is an ndarray: as many elements as its shape says) -/
+def reduceTo (vshape : Shape) (bg : Val) : Except Err Val :=
+  match reduceBroadcast bg.1 bg.2 vshape with
+  | none => .error .valueError
+  | some r => if r.1 = vshape ∧ r.2.length = size vshape then .ok r else .error .assertion
+
+/-- the shared tail of `Operation.backward`: where-mask, `reduce_broadcast`, shape assertion -/
+def postVjp (o : OpRec) (vshape : Shape) (bg : Val) : Except Err Val :=
+  match applyWhere o bg with
+  | .error e => .error e
+  | .ok bg => reduceTo vshape bg
+
+/-- the gradient `op f` sends to its variable number `index`, given the gradient `g` of its output.
+All reads go to `h`, the heap as it was when `backward` started: `backward` never writes data. -/
+def contribution (h : Heap) (o : OpRec) (index : Nat) (g : Val) : Except Err Val :=
+  match vjp h o index g with
+  | .error e => .error e
+  | .ok bg => postVjp o (h.t (o.vars.getD index 0)).data.d.shape bg
 
 /-- one step of `Operation.backward`'s loop: the contribution to variable number `index` -/
-def opBackwardVar (h : Heap) (o : OpRec) (g : Val) (index : Nat) : Except Err Heap :=
+def opBackwardVar (h : Heap) (o : OpRec) (g : Val) (gr : GMap) (index : Nat) : Except Err GMap :=
   let v := o.vars.getD index 0
   let tv := h.t v
-  if tv.const then .ok h
+  if tv.const then .ok gr
   else if tv.ops.isEmpty then .error .invalidBackprop
   else
-    match vjp h o index g with
+    match contribution h o index g with
     | .error e => .error e
-    | .ok bg =>
-      -- where-mask
-      let bg : Except Err Val := match o.whereMask with
-        | none => .ok bg
-        | some m =>
-          match broadcastShapes bg.1 m.1 with
-          | none => .error .valueError
-          | some sh =>
-            match broadcastVal bg sh, broadcastMask m sh with
-            | .ok b, .ok mk => .ok (sh, (List.zip b.2 mk).map fun (x, k) => if k then x else 0)
-            | _, _ => .error .valueError
-      match bg with
-      | .error e => .error e
-      | .ok bg =>
-        match reduceBroadcast bg.1 bg.2 tv.data.d.shape with
-        | none => .error .valueError
-        | some bg =>
-          if bg.1 ≠ tv.data.d.shape then .error .assertion
-          else
-            match tv.grad with
-            | none =>
-              let (h, o) := h.fresh
-              .ok (h.modT v ({ · with grad := some bg, gradObj := o }))
-            | some old => .ok (h.modT v ({ · with grad := some (addVal old bg) }))
+    | .ok bg => .ok (accum gr v bg)
 
 /-- fold with the state at the point of failure -/
-def foldErr {α} (xs : List α) (h : Heap) (f : Heap → α → Except Err Heap) : Heap × Option Err :=
+def foldErr {α σ} (xs : List α) (s : σ) (f : σ → α → Except Err σ) : σ × Option Err :=
   match xs with
-  | [] => (h, none)
+  | [] => (s, none)
   | x :: r =>
-    match f h x with
-    | .ok h' => foldErr r h' f
-    | .error e => (h, some e)
+    match f s x with
+    | .ok s' => foldErr r s' f
+    | .error e => (s, some e)
 
-/-- back-propagate `g` (the `_grad` of the op's output) to every non-constant input -/
-def opBackward (h : Heap) (f : Nat) (g : Val) : Heap × Option Err :=
+/-- `Operation.backward(grad)`: back-propagate `g` to every non-constant input -/
+def opBackward (h : Heap) (f : Nat) (g : Val) (gr : GMap) : GMap × Option Err :=
   let o := h.op f
-  foldErr (List.range o.vars.length) h fun h index => opBackwardVar h o g index
+  foldErr (List.range o.vars.length) gr fun gr index => opBackwardVar h o g gr index
 
 /-! ## `clear_graph`, `.grad` -/
 
@@ -551,19 +577,41 @@ inductive Seed where
   | val (v : Val)
   deriving Repr, Inhabited
 
-/-- the back-propagation loop over the topologically sorted tensors -/
-def backLoop (topo : List Nat) (h : Heap) : Heap × Option Err :=
+/-- the back-propagation loop over the topologically sorted tensors (`t._backward()` for each) -/
+def backLoop (h : Heap) (topo : List Nat) (gr : GMap) : GMap × Option Err :=
   match topo with
-  | [] => (h, none)
+  | [] => (gr, none)
   | t :: r =>
-    let tt := h.t t
-    match tt.grad, tt.creator with
-    | none, _ => (h, some .assertion)
+    match lookup t gr, (h.t t).creator with
+    | none, _ => (gr, some .assertion)
     | some gt, some f =>
-      match opBackward h f gt with
-      | (h, none) => backLoop r h
-      | (h, some e) => (h, some e)
-    | some _, none => backLoop r h
+      match opBackward h f gt gr with
+      | (gr, none) => backLoop h r gr
+      | (gr, some e) => (gr, some e)
+    | some _, none => backLoop h r gr
+
+/-- store the accumulated gradients: every entry becomes a fresh ndarray object in `_grad` -/
+def storeGrads (h : Heap) (gr : GMap) : Heap :=
+  gr.foldl (fun h (p : Nat × Val) =>
+    let (h, o) := h.fresh
+    h.modT p.1 ({ · with grad := some p.2, gradObj := o })) h
+
+/-- the seed gradient of `L.backward(grad)` -/
+def seedVal (sh : Shape) (seed : Seed) : Except Err Val :=
+  match seed with
+  | .none => .ok (sh, List.replicate (size sh) 1)
+  | .val v =>
+    if v.2.length ≠ size v.1 then .error .valueError           -- not an array
+    else if v.1 = sh then .ok v
+    else match broadcastVal v sh with
+      | .ok b => .ok b
+      | .error _ => .error .valueError
+
+/-- the gradients one backward pass computes, as a pure function of the heap at the moment
+`backward` is called: the topological order, the seed, and the accumulated gradient map (together
+with the error that interrupted the loop, if any) -/
+def backwardGrads (h : Heap) (L : Nat) (topo : List Nat) (g : Val) : GMap × Option Err :=
+  if (h.t L).creator.isNone then ([(L, g)], none) else backLoop h topo [(L, g)]
 
 /-- `L.backward(grad)` with tracking on.  An error carries the heap as the failed call leaves it. -/
 def backward (h : Heap) (L : Nat) (seed : Seed) : Except (Err × Heap) Heap :=
@@ -572,25 +620,16 @@ def backward (h : Heap) (L : Nat) (seed : Seed) : Except (Err × Heap) Heap :=
   else
     match collect h.fuel h L [] [] with
     | none => .error (.recursion, h)
-    | some (h, _, topo) =>
-    let sh := tL.data.d.shape
-    let g : Except Err Val :=
-      match seed with
-      | .none => .ok (sh, List.replicate (size sh) 1)
-      | .val v =>
-        if v.1 = sh then .ok v
-        else match broadcastVal v sh with
-          | .ok b => .ok b
-          | .error _ => .error .valueError
-    match g with
-    | .error e => .error (e, h)
-    | .ok g =>
-      let (h, go) := h.fresh
-      let h := h.modT L ({ · with grad := some g, gradObj := go })
-      let (h, err) := if (h.t L).creator.isNone then (h, none) else backLoop topo h
-      match err with
-      | some e => .error (e, h)
-      | none => .ok (clearGraph h.fuel h L)
+    | some (touched, topo) =>
+      let h := touched.foldl (fun h t => h.modT t ({ · with grad := none, viewGrad := none })) h
+      match seedVal tL.data.d.shape seed with
+      | .error e => .error (e, h)
+      | .ok g =>
+        let (gr, err) := backwardGrads h L topo g
+        let h := storeGrads h gr
+        match err with
+        | some e => .error (e, h)
+        | none => .ok (clearGraph h.fuel h L)
 
 def nullGrad (h : Heap) (t : Nat) : Heap := h.modT t ({ · with grad := none, viewGrad := none })
 
